@@ -5,6 +5,7 @@ import (
 	"fmt"
 	"testing"
 
+	"github.com/parquet-go/parquet-go/encoding/delta"
 	"github.com/parquet-go/parquet-go/encoding/rle"
 	"pgregory.net/rapid"
 
@@ -132,3 +133,199 @@ var foreignSpec = &kit.Spec[ForeignCase]{
 }
 
 func TestPropForeignRLE(t *testing.T) { kit.Both(t, foreignSpec) }
+
+// ---- DELTA_BINARY_PACKED streams with the parameters other writers choose ----------------
+
+// DeltaCase: integers encoded with DELTA_BINARY_PACKED by an encoder written
+// from Encodings.md with free parameters: block size (a multiple of 128),
+// number of miniblocks (values per miniblock a multiple of 32), miniblock bit
+// widths at or ABOVE the minimum, zero widths for unused trailing miniblocks.
+type DeltaCase struct {
+	Bits   int     `json:"bits"` // 32 | 64
+	Block  int     `json:"block"`
+	Minis  int     `json:"minis"`
+	Slack  int     `json:"slack"` // extra bits added to some miniblock widths
+	Values []int64 `json:"values"`
+}
+
+func genDeltaCase(t *rapid.T) DeltaCase {
+	var c DeltaCase
+	c.Bits = []int{32, 64}[rapid.IntRange(0, 1).Draw(t, "bits")]
+	c.Block = []int{128, 256, 512, 1024}[rapid.IntRange(0, 3).Draw(t, "block")]
+	var ok []int
+	for _, m := range []int{1, 2, 4, 8, 16} {
+		if c.Block%m == 0 && (c.Block/m)%32 == 0 {
+			ok = append(ok, m)
+		}
+	}
+	c.Minis = ok[rapid.IntRange(0, len(ok)-1).Draw(t, "minis")]
+	c.Slack = rapid.IntRange(0, 3).Draw(t, "slack")
+	n := []int{0, 1, 2, 31, 32, 33, 127, 128, 129, 130, 257, 600, 1100}[rapid.IntRange(0, 12).Draw(t, "n")]
+	style := rapid.IntRange(0, 3).Draw(t, "style")
+	x := int64(rapid.IntRange(-1000, 1000).Draw(t, "start"))
+	seed := uint64(rapid.IntRange(1, 1<<30).Draw(t, "seed"))
+	for i := 0; i < n; i++ {
+		seed = seed*6364136223846793005 + 1442695040888963407
+		switch style {
+		case 0:
+			x += int64(seed>>60) - 3
+		case 1:
+			x += int64(seed>>40) - (1 << 23)
+		case 2:
+			x = int64(seed) // wrapping deltas
+		default:
+			x += 5
+		}
+		if c.Bits == 32 {
+			x = int64(int32(x))
+		}
+		c.Values = append(c.Values, x)
+	}
+	return c
+}
+
+func zigzag(b []byte, x int64) []byte { return uvarint(b, uint64((x<<1)^(x>>63))) }
+
+func encodeDelta(c DeltaCase) []byte {
+	var out []byte
+	out = uvarint(out, uint64(c.Block))
+	out = uvarint(out, uint64(c.Minis))
+	out = uvarint(out, uint64(len(c.Values)))
+	if len(c.Values) == 0 {
+		return zigzag(out, 0)
+	}
+	out = zigzag(out, c.Values[0])
+	per := c.Block / c.Minis
+	wrap := func(d int64) int64 {
+		if c.Bits == 32 {
+			return int64(int32(d))
+		}
+		return d
+	}
+	for pos := 1; pos < len(c.Values); pos += c.Block {
+		end := min(pos+c.Block, len(c.Values))
+		deltas := make([]int64, end-pos)
+		minDelta := int64(0)
+		for i := pos; i < end; i++ {
+			deltas[i-pos] = wrap(c.Values[i] - c.Values[i-1])
+			if i == pos || deltas[i-pos] < minDelta {
+				minDelta = deltas[i-pos]
+			}
+		}
+		out = zigzag(out, minDelta)
+		widths := make([]int, c.Minis)
+		for m := 0; m < c.Minis; m++ {
+			lo := m * per
+			if lo >= len(deltas) {
+				break // unused miniblock: width 0, no data
+			}
+			hi := min(lo+per, len(deltas))
+			var maxv uint64
+			for _, d := range deltas[lo:hi] {
+				v := uint64(d - minDelta)
+				if c.Bits == 32 {
+					v = uint64(uint32(v))
+				}
+				if v > maxv {
+					maxv = v
+				}
+			}
+			w := 0
+			for maxv>>uint(w) != 0 {
+				w++
+			}
+			if (m+c.Slack)%2 == 1 { // a writer may use more bits than necessary
+				w = min(w+c.Slack, c.Bits)
+			}
+			widths[m] = w
+		}
+		for _, w := range widths {
+			out = append(out, byte(w))
+		}
+		for m := 0; m < c.Minis; m++ {
+			lo := m * per
+			if lo >= len(deltas) {
+				break
+			}
+			w := widths[m]
+			var acc [2]uint64 // 128-bit accumulator, little end first
+			nbits := 0
+			for k := 0; k < per; k++ {
+				var v uint64
+				if lo+k < len(deltas) {
+					v = uint64(deltas[lo+k] - minDelta)
+					if c.Bits == 32 {
+						v = uint64(uint32(v))
+					}
+				}
+				if w > 0 {
+					acc[0] |= v << uint(nbits)
+					if nbits > 0 && nbits+w > 64 {
+						acc[1] |= v >> uint(64-nbits)
+					}
+					nbits += w
+					for nbits >= 8 {
+						out = append(out, byte(acc[0]))
+						acc[0] = acc[0]>>8 | acc[1]<<56
+						acc[1] >>= 8
+						nbits -= 8
+					}
+				}
+			}
+		}
+	}
+	return out
+}
+
+func runDeltaCase(c DeltaCase, o *kit.Obs) *kit.Failure {
+	if c.Block == 0 || c.Minis == 0 || (c.Bits != 32 && c.Bits != 64) {
+		return kit.Failf("harness/bad-case", "bad parameters")
+	}
+	src := encodeDelta(c)
+	feat := fmt.Sprintf("{bits=%d}", c.Bits)
+	// the reference decoder of this harness must agree with the stream first (self-check of the encoder above)
+	if c.Bits == 32 {
+		got, err := (&delta.BinaryPackedEncoding{}).DecodeInt32(nil, src)
+		if err != nil {
+			return kit.Failf("c04/foreign-delta/decode-error"+feat, "DecodeInt32 of a valid stream (block %d, %d miniblocks, %d values): %v", c.Block, c.Minis, len(c.Values), err)
+		}
+		if len(got) != len(c.Values) {
+			return kit.Failf("c04/foreign-delta/count"+feat, "DecodeInt32 returned %d values, the stream holds %d (block %d, %d miniblocks)", len(got), len(c.Values), c.Block, c.Minis)
+		}
+		for i, v := range c.Values {
+			if int64(got[i]) != v {
+				return kit.Failf("c04/foreign-delta/values-differ"+feat, "DecodeInt32: value %d of %d is %d, the stream encodes %d (block %d, %d miniblocks, slack %d)", i, len(c.Values), got[i], v, c.Block, c.Minis, c.Slack)
+			}
+		}
+	} else {
+		got, err := (&delta.BinaryPackedEncoding{}).DecodeInt64(nil, src)
+		if err != nil {
+			return kit.Failf("c04/foreign-delta/decode-error"+feat, "DecodeInt64 of a valid stream (block %d, %d miniblocks, %d values): %v", c.Block, c.Minis, len(c.Values), err)
+		}
+		if len(got) != len(c.Values) {
+			return kit.Failf("c04/foreign-delta/count"+feat, "DecodeInt64 returned %d values, the stream holds %d (block %d, %d miniblocks)", len(got), len(c.Values), c.Block, c.Minis)
+		}
+		for i, v := range c.Values {
+			if got[i] != v {
+				return kit.Failf("c04/foreign-delta/values-differ"+feat, "DecodeInt64: value %d of %d is %d, the stream encodes %d (block %d, %d miniblocks, slack %d)", i, len(c.Values), got[i], v, c.Block, c.Minis, c.Slack)
+			}
+		}
+	}
+	o.Class(fmt.Sprintf("block-%d/minis-%d", c.Block, c.Minis))
+	if len(c.Values) > c.Block || c.Block != 128 || c.Minis != 4 {
+		o.NonTrivial()
+	}
+	return nil
+}
+
+var deltaSpec = &kit.Spec[DeltaCase]{
+	Property: "C04",
+	Name:     "foreigndelta",
+	Rule: "DELTA_BINARY_PACKED streams of 0..1100 int32/int64 values built from Encodings.md with block sizes 128..1024, 1..16 miniblocks (32-value multiples), miniblock widths at or above the minimum, wrapping deltas: " +
+		"the library's DecodeInt32 / DecodeInt64 must return the values. Non-trivial = more values than one block, or parameters other than 128 / 4.",
+	Assumptions: []string{"as for foreignrle: the decoders' input domain is what the specification allows"},
+	Gen:         genDeltaCase,
+	Run:         runDeltaCase,
+}
+
+func TestPropForeignDelta(t *testing.T) { kit.Both(t, deltaSpec) }
